@@ -49,7 +49,8 @@ Section Eval.
     match ps, az with
     | p :: ps', a :: az' =>
         do v <- eval fuel vars a ; bind_args fuel vars ps' az' (bind_var acc p v)
-    | _, _ => Ok acc
+    | p :: _, [] => err1 "UndefinedVariable" p
+    | [], _ => Ok acc
     end.
 
   Lemma eval_paren : forall f vs a, eval f vs (EParen a) = eval f vs a.
@@ -104,6 +105,37 @@ Section Eval.
       induction args as [|a az IH]; intros ps acc; destruct ps as [|p ps']; cbn [bind_args]; try reflexivity.
       change (Expr.eval labels macros (S f') vs a) with (ev labels macros (Some (Expr.eval labels macros f')) vs a).
       destruct (ev labels macros (Some (Expr.eval labels macros f')) vs a); cbn [bind]; auto.
+  Qed.
+
+  (* every parameter needs an argument: with fewer arguments than parameters the binding fails
+     (with the error of an argument, or naming the first parameter left over), whether or not
+     the body reads that parameter; surplus arguments are ignored *)
+  Lemma bind_args_short : forall f vs az ps acc bound,
+    (length az < length ps)%nat -> bind_args f vs ps az acc <> Ok bound.
+  Proof.
+    intros f vs. induction az as [|a az IH]; intros ps acc bound Hl; destruct ps as [|p ps']; cbn [bind_args length] in *;
+      try discriminate; try (exfalso; inversion Hl; fail).
+    destruct (eval f vs a) as [v|er|sx]; cbn [bind]; try discriminate.
+    apply IH. apply PeanoNat.Nat.succ_lt_mono. exact Hl.
+  Qed.
+
+  Lemma bind_args_missing : forall f vs az ps acc vals,
+    Forall2 (fun a v => eval f vs a = Ok v) az vals -> (length az < length ps)%nat ->
+    bind_args f vs ps az acc = err1 "UndefinedVariable" (nth (length az) ps "").
+  Proof.
+    intros f vs az ps acc vals H. revert ps acc.
+    induction H as [|a v az vals Ha Haz IH]; intros ps acc Hl; destruct ps as [|p ps']; cbn [bind_args length nth] in *;
+      try (exfalso; inversion Hl; fail); [reflexivity|].
+    rewrite Ha. cbn [bind]. apply IH. apply PeanoNat.Nat.succ_lt_mono. exact Hl.
+  Qed.
+
+  Theorem macro_arity : forall f vs n args d v,
+    macros n = Some (Some d) -> (length args < length (em_params d))%nat ->
+    eval f vs (EMacro n args) <> Ok v.
+  Proof.
+    intros f vs n args d v Hd Hl. rewrite eval_macro, Hd. destruct f as [|f']; [discriminate|].
+    destruct (bind_args (S f') vs (em_params d) args []) as [bound|er|sx] eqn:Eb; cbn [bind]; try discriminate.
+    exfalso. exact (bind_args_short _ _ _ _ _ _ Hl Eb).
   Qed.
 
   (* ---------- evaluation never panics (the result is a value or an error value) ---------- *)
